@@ -543,46 +543,52 @@ static int Slice_Cmp(var self, var obj) {
   return cmp(s->range, o->range);
 }
 
+/*
+** The Slice's Range acts as the position cursor: its current value is the
+** index (in the underlying iterable) of the item the iteration is at. The 
+** underlying iterable is only ever stepped between positions the Range 
+** yields, so iteration stops at `stop` and never walks through Terminal.
+*/
+
+static var Slice_Iter_Seek(struct Slice* s, var pos) {
+  
+  if (pos is Terminal) { return Terminal; }
+  
+  int64_t p = c_int(pos);
+  int64_t n = (int64_t)len(s->iter);
+  var curr;
+  
+  if (p <= n / 2) {
+    curr = iter_init(s->iter);
+    for (int64_t i = 0; i < p; i++) { curr = iter_next(s->iter, curr); }
+  } else {
+    curr = iter_last(s->iter);
+    for (int64_t i = 0; i < n-1-p; i++) { curr = iter_prev(s->iter, curr); }
+  }
+  
+  return curr;
+}
+
+static var Slice_Iter_Step(struct Slice* s, var curr, var pos, int64_t from) {
+  
+  if (pos is Terminal) { return Terminal; }
+  
+  int64_t to = c_int(pos);
+  for (int64_t i = from; i < to; i++) { curr = iter_next(s->iter, curr); }
+  for (int64_t i = from; i > to; i--) { curr = iter_prev(s->iter, curr); }
+  return curr;
+}
+
 static var Slice_Iter_Init(var self) {
   struct Slice* s = self;
-  struct Range* r = s->range;
-  
-  if (r->step > 0) {
-    var curr = iter_init(s->iter);
-    for(int64_t i = 0; i < r->start; i++) {
-      curr = iter_next(s->iter, curr);
-    }
-    return curr;
-  }
-  
-  if (r->step < 0) {
-    var curr = iter_last(s->iter);
-    for (int64_t i = 0; i < (int64_t)len(s->iter)-r->stop; i++) {
-      curr = iter_prev(s->iter, curr);
-    }
-    return curr;
-  }
-
-  return Terminal;
+  return Slice_Iter_Seek(s, iter_init(s->range));
 }
 
 static var Slice_Iter_Next(var self, var curr) {
   struct Slice* s = self;
   struct Range* r = s->range;
-  
-  if (r->step > 0) {
-    for (int64_t i = 0; i < r->step; i++) {
-      curr = iter_next(s->iter, curr);
-    }
-  }
-  
-  if (r->step < 0) {
-    for (int64_t i = 0; i < -r->step; i++) {
-      curr = iter_prev(s->iter, curr);
-    }
-  }
-  
-  return curr;
+  int64_t from = c_int(r->value);
+  return Slice_Iter_Step(s, curr, iter_next(s->range, r->value), from);
 }
 
 static var Slice_Iter_Type(var self) {
@@ -592,44 +598,14 @@ static var Slice_Iter_Type(var self) {
 
 static var Slice_Iter_Last(var self) {
   struct Slice* s = self;
-  struct Range* r = s->range;
-  
-  if (r->step > 0) {
-    var curr = iter_last(s->iter);
-    for(int64_t i = 0; i < (int64_t)len(s->iter)-r->stop; i++) {
-      curr = iter_prev(s->iter, curr);
-    }
-    return curr;
-  }
-  
-  if (r->step < 0) {
-    var curr = iter_init(s->iter);
-    for(int64_t i = 0; i < r->start; i++) {
-      curr = iter_next(s->iter, curr);
-    }
-    return curr;
-  }
-
-  return Terminal;
+  return Slice_Iter_Seek(s, iter_last(s->range));
 }
 
 static var Slice_Iter_Prev(var self, var curr) {
   struct Slice* s = self;
   struct Range* r = s->range;
-  
-  if (r->step > 0) {
-    for (int64_t i = 0; i < r->step; i++) {
-      curr = iter_prev(s->iter, curr);
-    }
-  }
-  
-  if (r->step < 0) {
-    for (int64_t i = 0; i < -r->step; i++) {
-      curr = iter_next(s->iter, curr);
-    }
-  }
-  
-  return curr;
+  int64_t from = c_int(r->value);
+  return Slice_Iter_Step(s, curr, iter_prev(s->range, r->value), from);
 }
 
 static size_t Slice_Len(var self) {
@@ -644,7 +620,7 @@ static var Slice_Get(var self, var key) {
 
 static bool Slice_Mem(var self, var key) {
   var curr = Slice_Iter_Init(self);
-  while (curr) {
+  while (curr isnt Terminal) {
     if (eq(curr, key)) { return true; }
     curr = Slice_Iter_Next(self, curr);
   }
